@@ -63,7 +63,19 @@ func DoubleQuotesToBackTick(str string) (string, error) {
 				for ; i < len(str) && r != '"'; i++ {
 					r = rune(str[i])
 					if r == '"' {
+						// a doubled quote is a quote of the name, not its end
+						if i+1 < len(str) && str[i+1] == '"' {
+							buffer.WriteByte('"')
+							i++
+							r = '0'
+							continue
+						}
 						buffer.WriteByte('`')
+						continue
+					}
+					// a back-tick of the name is doubled in the back-ticked name
+					if r == '`' {
+						buffer.WriteString("``")
 						continue
 					}
 					if r == '\\' {
